@@ -60,6 +60,9 @@ pub struct Tape {
     /// Values drawn so far (generation) or values to replay.
     pub vals: Vec<u64>,
     pub pos: usize,
+    /// Values forced onto the front of a generated tape (grid enumeration: run i of a batch gets
+    /// its grid cell as first choice).
+    pub forced: std::collections::VecDeque<u64>,
     /// Hard cap on the number of draws in one run; afterwards every draw returns 0.
     pub cap: usize,
 }
@@ -70,14 +73,21 @@ impl Tape {
             gen_: Some(Xoshiro::new(seed)),
             vals: Vec::new(),
             pos: 0,
+            forced: Default::default(),
             cap: 4_000_000,
         }
+    }
+    pub fn generate_forced(seed: u64, forced: Vec<u64>) -> Self {
+        let mut t = Self::generate(seed);
+        t.forced = forced.into();
+        t
     }
     pub fn replay(vals: Vec<u64>) -> Self {
         Tape {
             gen_: None,
             vals,
             pos: 0,
+            forced: Default::default(),
             cap: 4_000_000,
         }
     }
@@ -94,7 +104,10 @@ impl Tape {
         }
         let v = match &mut self.gen_ {
             Some(g) => {
-                let v = g.next() % n;
+                let v = match self.forced.pop_front() {
+                    Some(f) => f % n,
+                    None => g.next() % n,
+                };
                 self.vals.push(v);
                 v
             }
